@@ -2462,7 +2462,7 @@ pub fn run(prop: &str) {
 
     // ---- batches (bounded memory): generate, run engine and model, compare, judge
     // under C02 the generated programs are extra model-comparison coverage of expression evaluation
-    let total_programs = if c02 { env.budget(8_000, 300_000) } else { env.budget(30_000, 600_000) };
+    let total_programs = if c02 { env.budget(8_000, 300_000) } else { env.budget(20_000, 600_000) };
     let total_programs = std::env::var("VERIF_EVAL_PROGRAMS").ok().and_then(|s| s.parse().ok()).unwrap_or(total_programs);
     let batch_size = 16_000;
     let mut distinct: std::collections::HashSet<u64> = std::collections::HashSet::new();
